@@ -210,10 +210,11 @@ def measure(res, cfgs, masses, s0, refs, T, tag, dirs, accbound=5e-4):
     nb = len(masses)
     floor = 3e-11
 
-    def one(name, opts, sgn, n):
+    def raw(name, opts, sgn, n, G=1.0):
         sim = rebound.Simulation()
+        sim.G = G
         for i, m in enumerate(masses):
-            sim.add(m=m, x=s0[6 * i], y=s0[6 * i + 1], z=s0[6 * i + 2], vx=s0[6 * i + 3], vy=s0[6 * i + 4], vz=s0[6 * i + 5])
+            sim.add(m=m / G, x=s0[6 * i], y=s0[6 * i + 1], z=s0[6 * i + 2], vx=s0[6 * i + 3], vy=s0[6 * i + 4], vz=s0[6 * i + 5])
         set_opts(sim, name, opts)
         sim.dt = sgn * T / n
         sim.steps(n)
@@ -221,8 +222,17 @@ def measure(res, cfgs, masses, s0, refs, T, tag, dirs, accbound=5e-4):
         got = []
         for p in sim.particles:
             got += [p.x, p.y, p.z]
+        return got
+
+    def one(name, opts, sgn, n):
+        got = raw(name, opts, sgn, n)
         ref = [refs[sgn][6 * i + k] for i in range(nb) for k in range(3)]
         return max(abs(a - b) for a, b in zip(got, ref))
+
+    def gscale(name, opts, sgn, n):
+        """the same system in units with G = 4 and all masses / 4: every product G m is the same binary64 number"""
+        a, b = raw(name, opts, sgn, n), raw(name, opts, sgn, n, G=4.0)
+        return max(abs(x - y) for x, y in zip(a, b))
     for sgn in dirs:
         for name, opts, want, n0 in cfgs:
             try:
@@ -233,6 +243,11 @@ def measure(res, cfgs, masses, s0, refs, T, tag, dirs, accbound=5e-4):
             res["order_runs"] += 1
             orders = [math.log2(errs[k] / errs[k + 1]) if errs[k + 1] > 0 else 99.0 for k in range(2)]
             lab = "%s%s %s dir%+d" % (tag, name, {k: v for k, v in opts.items() if not k.startswith("scale")}, sgn)
+            gd = gscale(name, opts, sgn, n0)
+            res["gscale_max"] = max(res.get("gscale_max", 0.0), gd)
+            if gd > GSCALE_TOL:
+                viol(res, "G-scaling", integrator=name, opts=opts, direction=sgn, difference=gd, system=tag,
+                     clause="the trajectory depends on G and the masses only through the products G m (units with G = 4, masses / 4)")
             if len(res["observed"]) < 400:
                 res["observed"]["order " + lab] = [round(o, 2) for o in orders] + [errs[-1]]
             measurable = [o for o, e in zip(orders, errs[1:]) if e > floor]
@@ -251,6 +266,7 @@ def measure(res, cfgs, masses, s0, refs, T, tag, dirs, accbound=5e-4):
                 viol(res, "accuracy", integrator=name, opts=opts, direction=sgn, error=errs[2], system=tag)
 
 
+GSCALE_TOL = 0.0
 N0 = {2: 16, 4: 16, 6: 8, 8: 2}
 
 
